@@ -113,6 +113,86 @@ class SymApi(BaseApi):
             self.ctx.assume(z3.Implies(S > 0, P.FMOD(x, y) == S * P.FMOD(x / S, y / S)))
         self.ctx.oblige(oid, rz * S == P.FMOD(x, y), "ensures")
 
+    def instantiate(self, k):
+        """instantiate, at index k, the universal facts produced by search loops
+        ('no (earlier) iteration returns')"""
+        kz = zint(k)
+        for f in getattr(self.ctx, "foralls", []):
+            self.ctx.assume(z3.Implies(z3.And(kz >= f["lo"], kz < f["hi"]),
+                                       z3.substitute(f["body"], (f["var"], kz))))
+
+    def sorted_facts(self, arr, extra=()):
+        """ground instances of sortedness (i <= j -> a[i] <= a[j]) at every index term at which the
+        input array is read in the path condition, plus `extra`"""
+        base = arr.arr
+        idx = {}
+        stack = list(self.ctx.pc)
+        seen = set()
+        while stack:
+            t = stack.pop()
+            if t.get_id() in seen:
+                continue
+            seen.add(t.get_id())
+            if z3.is_quantifier(t):
+                continue
+            if z3.is_select(t) and z3.eq(t.arg(0), base):
+                idx[t.arg(1).get_id()] = t.arg(1)
+            if z3.is_app(t):
+                stack.extend(t.children())
+        for e in extra:
+            ez = zint(e)
+            idx[ez.get_id()] = ez
+        terms = list(idx.values())
+        n = 0
+        for a in terms:
+            for b in terms:
+                if a.get_id() == b.get_id():
+                    continue
+                self.ctx.assume(z3.Implies(z3.And(a >= 0, b < arr.n, a <= b),
+                                           z3.Select(base, a) <= z3.Select(base, b)))
+                n += 1
+        return n
+
+    def use_lemma(self, name, *args):
+        from . import lemmas
+        self.ctx.assume(lemmas.instance(name, *[zint(a) if not z3.is_expr(a) else a for a in args]))
+
+    def check_sum(self, oid, value, lo, hi, termfn):
+        """value must be  SUM_{lo <= i < hi} termfn(i).  Sum congruence: the fold ghost of the code's
+        loop has bounds (lo,hi) and its term equals termfn at a Skolem index."""
+        vz = z3.simplify(zreal(value)) if not isinstance(value, SInt) else z3.simplify(value.z)
+        folds = {f["fn"].name(): f for f in getattr(self.ctx, "folds", [])}
+        app = None
+        stack = [vz]
+        while stack:
+            t = stack.pop()
+            if z3.is_app(t) and t.decl().name() in folds and t.num_args() >= 2:
+                app = t
+                break
+            if z3.is_app(t):
+                stack.extend(t.children())
+        if app is None:
+            self.ctx.oblige(oid + ".is_a_fold", z3.BoolVal(False), "ensures", "result is not a loop fold")
+            return
+        f = folds[app.decl().name()]
+        j = z3.Int(self.ctx.fresh("sk"))
+        rest = z3.simplify(vz - app)
+        self.ctx.oblige(oid + ".bounds", z3.And(app.arg(0) == zint(lo), app.arg(1) == zint(hi), rest == 0), "ensures")
+        code_t = z3.substitute(f["term"], [(f["var"], j)] +
+                               [(p, app.arg(2 + n)) for n, p in enumerate(f.get("params", []))])
+        spec_t = termfn(SInt(j))
+        spec_z = zreal(spec_t) if not z3.is_int(code_t) else zint(spec_t)
+        self.ctx.oblige(oid + ".term", z3.Implies(z3.And(j >= zint(lo), j < zint(hi)), code_t == spec_z), "ensures")
+
+    def feasible(self):
+        return self.ctx.feasible(z3.BoolVal(True))
+
+    def unreachable(self, oid, note=""):
+        """the current path must be infeasible: obligation pc |= False, then the path ends"""
+        from .ctx import PathAbort
+        self.ctx.oblige(oid, z3.BoolVal(False), "ensures", note)
+        raise PathAbort("path proved/claimed unreachable")
+
     def lemma(self, name, fact):
         """instance of a named lemma of the lemma library (assumed here, proved in lemmas/)"""
         self.lemmas += 1
@@ -173,4 +253,11 @@ class SymApi(BaseApi):
         return vlen(a)
 
     def arr_get(self, a, k):
+        return a[k]
+
+    def sel(self, a, k):
+        """raw array element (total; no python index semantics) for spec-side facts"""
+        from ..pysym.arrays import SymArr
+        if isinstance(a, SymArr):
+            return a.wrap(z3.Select(a.arr, zint(k)))
         return a[k]
